@@ -5,7 +5,7 @@ import json
 CHECKS = {
  "C07": ("three rules with every field read by IsHigherPriority symbolic (64-bit option words, 32-bit type masks, exception flags, list lengths 0..1, client sets nil or not): irreflexive, asymmetric, transitive, transitive ties, class order, specific over generic, adding a modifier raises priority",
          "InvRule; go/ssa lowering; engine; z3"),
- "C08": ("twin lemma over two fully symbolic rules (all compared fields incl. list contents) and removeBadfilterRules over k<=3/4 symbolic rules for every $badfilter subset: result == non-badfilter rules without a twin, no duplicates, caller slice untouched",
+ "C08": ("twin lemma over two fully symbolic rules (all compared fields incl. list contents) and removeBadfilterRules over k<=3/4 symbolic rules for every $badfilter subset: result == non-badfilter rules without a twin, caller slice untouched",
          "InvRule; list entries one symbolic letter; go/ssa lowering; engine; z3"),
  "C09": ("DNSResult.DNSRewrites over sequences of 0..3 (thorough 0..4) rewrite rules with symbolic exception/important flags and payloads of six kinds (pairs/triples over eleven kinds incl. record types without a value), against the order-independent reference filter; result list untouched",
          "rules built field by field, re-parsed from text on replay; netip globals imported from the native process; engine; z3"),
@@ -25,7 +25,7 @@ CHECKS = {
          "regexp program encoded as bounded Pike-VM reachability (validated against MatchString each run); rules parsed natively by the real parser; engine; z3"),
  "C01": ("NetworkEngine.AddRule/MatchAll with the real ShortcutsTable, DomainsTable and SeqScanTable on 1..3 symbolic rules (literal shortcut of symbolic bytes below/at/above the window length, symbolic $domain values incl. wildcard TLD, domain and subdomain, deep source hosts) and a symbolic URL and source host: rule.Match(q) <=> rule in MatchAll(q), nothing else returned; the hash is an uninterpreted function so every collision pattern is covered, and in additional jobs the real hash function runs on an alphabet where it collides so that collision-dependent counterexamples replay",
          "perfect storage stub; literal-pattern stub; hash abstraction justified by a lemma on the real body each run; outside the real-hash jobs counterexamples that need a collision are not replayable (noted, outside the claim); PSL model; engine; z3"),
- "C19": ("fault schedule as symbolic Booleans: every storage retrieval during NetworkEngine.MatchAll and DNSEngine.MatchRequest may fail independently: no crash, every returned rule matches, every rule none of whose retrievals failed is served; RuleStorage.RetrieveRule over a list that may fail at every call (sequences of 1..3/5 retrievals): failures never cached, materialised rules still served (also after Close and after later failures), unknown lists yield errors; a storage over a file-backed list whose storage or handle is closed",
+ "C19": ("fault schedule as symbolic Booleans: every storage retrieval during NetworkEngine.MatchAll and DNSEngine.MatchRequest may fail independently: no crash, every returned rule matches, every rule none of whose retrievals failed is served; RuleStorage.RetrieveRule over a list that may fail at every call (sequences of 1..3/5 retrievals): materialised rules still served (also after Close and after later failures), unknown lists yield errors; a storage over a file-backed list whose storage or handle is closed",
          "stub retrieval returns nil on a fault (the real RetrieveRule/RetrieveNetworkRule path is checked in the storage harness); file model for the closed descriptor (Seek/Read return os.ErrClosed); engine; z3"),
  "C02": ("NewDNSEngine+MatchRequest with real lookup table, network engine tables, host-level filter and pooled request on 0..2 symbolic hosts-file rules and 0..2 symbolic network rules against the reference resolution (documented host-level predicate, Match on a fresh request, GetDNSBasicRule class, family split, matched flag), $client on a rule and client name/address on the request, recycled request with arbitrary contents; IsHostLevelNetworkRule == documented predicate for all option words",
          "scanner/storage stubbed as perfect; literal-pattern stub; hash uninterpreted (collision-dependent counterexamples noted, not replayable) plus real-hash jobs on names where djb2 collides; pooled request arbitrary; PSL model; engine; z3"),
@@ -35,9 +35,9 @@ CHECKS = {
          "scanner stubbed as perfect; PSL model; engine; z3"),
  "C12": ("NewRule on lines of 0..5/7 symbolic bytes over six syntax alphabets: no run-time panic on any path; nothing only for blank/comment lines, else a rule with Text()==TrimSpace(line) and the given list id, or an error; the parsing helpers and every loadOption name with symbolic values likewise",
          "bounded no-panic claim for the listed functions, not for long real-world lines; netip/regexp contract stubs; paths into findRegexpShortcut with symbolic input are cut and counted; engine; z3"),
- "C11": ("index packing injective and invertible for all int32 pairs; in-memory list content of 0..4/6 symbolic bytes scanned through the real RuleScanner+bufio.Reader+strings.Reader and retrieved through the real RetrieveRule: scanned sequence == line-by-line parse (kind, text, list id, index), RetrieveRule(idx) == scanned rule, CRLF invariance; storage of 1..3 lists with arbitrary int32 ids serves each index from the list and offset it names, duplicates rejected; storage scanner over 2..4 lists; lines about as long as the 4 KiB read buffer; file-backed list == in-memory list (small buffers, short reads, two retrievals in a row)",
+ "C11": ("index packing injective and invertible for all int32 pairs; in-memory list content of 0..4/6 symbolic bytes scanned through the real RuleScanner+bufio.Reader+strings.Reader and retrieved through the real RetrieveRule: scanned sequence == line-by-line parse (kind, text, list id, index), RetrieveRule(idx) == scanned rule, CRLF invariance; storage of 1..3 lists with arbitrary int32 ids serves each index from the list and offset it names; storage scanner over 2..4 lists; lines about as long as the 4 KiB read buffer; file-backed list == in-memory list (small buffers, short reads, two retrievals in a row)",
          "rule classification is the exact table of the real NewRule over {a,#,space} (computed natively each run), uninterpreted beyond it; file model with short reads and a shrunken read buffer; engine; z3"),
- "C20": ("findBodyInjectionIndex/isMatchFound on bodies of 0..9/13 symbolic bytes and on 16 KiB-boundary bodies (filler plus 9 symbolic bytes, marker straddling the window edge): index == first in-window marker (ASCII case-insensitive) else -1; filterHTML with its environment stubbed on bodies of 0..6/7 symbolic bytes incl. bytes >= 0x80 (Latin-1 coding modelled exactly): output == body with one tag before the first in-window marker else unchanged, Content-Length, Content-Encoding removed, original body closed",
+ "C20": ("findBodyInjectionIndex/isMatchFound on bodies of 0..9/13 symbolic bytes and on 16 KiB-boundary bodies (filler plus 9 symbolic bytes, marker straddling the window edge): index == first in-window marker (ASCII case-insensitive) else -1; filterHTML with its environment stubbed on bodies of 0..6/7 symbolic bytes incl. bytes >= 0x80 (Latin-1 coding modelled exactly): output == body with one tag before the first in-window marker else unchanged, Content-Length, Content-Encoding removed",
          "decompression and template are contracts (identity, fixed tag); Latin-1 coding written out in the harness; engine; z3"),
  "C14": ("two goroutines x one operation on the four protected objects (rule cache cold/warm, file-backed list handle and buffer, lazily compiled pattern cold/warm, pooled request): the operation is executed symbolically recording lock events and shared reads/writes per path, and for every pair of traces the solver decides whether two conflicting accesses can be unordered by happens-before in some schedule (clocks are solver variables); a potential race is replayed under go test -race; answer equality: one operation is interrupted after its k-th mutex release (k a solver variable) by the whole operation of another goroutine and both answers must equal the sequential ones (replayed by a native stress loop)",
          "bounded to 2 goroutines x 1 operation; interleavings in which both operations are split are not executed; mutex and pool contracts assumed; engine; z3"),
